@@ -104,10 +104,84 @@ def _moves(node, v: str, direction: int, loop, fn_node) -> bool:
     if isinstance(a, ast.Assign) and len(a.targets) == 1 and norm(a.targets[0]) == v and direction > 0:
         # v = w where w was started from v + <positive> and is only incremented
         w = a.value
-        if isinstance(w, ast.Name):
-            return _starts_above(w.id, v, loop, 0)
+        if isinstance(w, ast.Name) and _starts_above(w.id, v, loop, 0) and _sentinel_excluded(w.id, a, loop):
+            return True
         if isinstance(w, ast.BinOp) and isinstance(w.op, ast.Add) and norm(w.left) == v and (_pos_const(w.right) or isinstance(w.right, ast.Call)):
             return True
+        # v = p + c  where p = <text>.find(.., v [+ c']) was found (the "not found" answer -1 left the loop / the iteration before)
+        if isinstance(w, ast.BinOp) and isinstance(w.op, ast.Add) and isinstance(w.left, ast.Name) and _pos_const(w.right) \
+                and _found_from(w.left.id, v, loop) and _not_found_left(w.left.id, a, loop):
+            return True
+        # v = e  where e = <bound> if p == -1 else p + c: the loop's own bound (above v by the loop test) or a position found above v
+        if isinstance(w, ast.Name):
+            defs = [x.value for st in loop.body for x in ast.walk(st) if isinstance(x, ast.Assign) and len(x.targets) == 1 and norm(x.targets[0]) == w.id]
+            if len(defs) == 1 and isinstance(defs[0], ast.IfExp):
+                ie = defs[0]
+                t = ie.test
+                if isinstance(t, ast.Compare) and len(t.ops) == 1 and isinstance(t.ops[0], ast.Eq) and isinstance(t.left, ast.Name) and _neg_const(t.comparators[0]) \
+                        and _found_from(t.left.id, v, loop, strictly=True) and norm(ie.body) in _bounds_of(v, loop) \
+                        and isinstance(ie.orelse, ast.BinOp) and isinstance(ie.orelse.op, ast.Add) and norm(ie.orelse.left) == t.left.id \
+                        and (_pos_const(ie.orelse.right)):
+                    return True
+    return False
+
+
+def _found_from(p: str, v: str, loop, strictly: bool = False) -> bool:
+    """p's only definition in the loop is `<text>.find(<x>, v)` or `.find(<x>, v + c)`: a position at / above v, or -1"""
+    defs = [x.value for st in loop.body for x in ast.walk(st) if isinstance(x, ast.Assign) and len(x.targets) == 1 and norm(x.targets[0]) == p]
+    if len(defs) != 1:
+        return False
+    d = defs[0]
+    if not (isinstance(d, ast.Call) and isinstance(d.func, ast.Attribute) and d.func.attr in ("find", "index") and len(d.args) == 2):
+        return False
+    pos = d.args[1]
+    if norm(pos) == v:
+        return not strictly
+    return isinstance(pos, ast.BinOp) and isinstance(pos.op, ast.Add) and norm(pos.left) == v and _pos_const(pos.right)
+
+
+def _not_found_left(p: str, at: ast.AST, loop) -> bool:
+    """before `at`, in the same block, `if p == -1: break / return / continue / raise` has been passed"""
+    blk = getattr(at, "_parent", None)
+    for fld in ("body", "orelse"):
+        seq = getattr(blk, fld, None)
+        if isinstance(seq, list) and at in seq:
+            for st in seq[:seq.index(at)]:
+                if isinstance(st, ast.If) and isinstance(st.test, ast.Compare) and len(st.test.ops) == 1 and isinstance(st.test.ops[0], ast.Eq) \
+                        and norm(st.test.left) == p and _neg_const(st.test.comparators[0]) and st.body \
+                        and isinstance(st.body[-1], (ast.Break, ast.Return, ast.Continue, ast.Raise)):
+                    return True
+    return False
+
+
+def _bounds_of(v: str, loop) -> set:
+    """texts b with `v < b` a conjunct of the loop test"""
+    out = set()
+    for c in _conjuncts(loop.test):
+        if isinstance(c, ast.Compare) and len(c.ops) == 1 and isinstance(c.ops[0], ast.Lt) and norm(c.left) == v:
+            out.add(norm(c.comparators[0]))
+    return out
+
+
+def _neg_const(e) -> bool:
+    return (isinstance(e, ast.UnaryOp) and isinstance(e.op, ast.USub) and isinstance(e.operand, ast.Constant) and isinstance(e.operand.value, int)) or \
+        (isinstance(e, ast.Constant) and isinstance(e.value, int) and not isinstance(e.value, bool) and e.value < 0)
+
+
+def _sentinel_excluded(w: str, at: ast.AST, loop) -> bool:
+    """If w can be set to a negative "not found" mark in the loop, the statement `at` runs only where w was tested against it
+    (`if w != -1:` / `w >= 0` / `w > -1`)."""
+    marked = any(isinstance(x, ast.Assign) and len(x.targets) == 1 and norm(x.targets[0]) == w and isinstance(x.value, ast.IfExp)
+                 and _neg_const(x.value.orelse) for st in loop.body for x in ast.walk(st))
+    if not marked:
+        return True
+    p, child = getattr(at, "_parent", None), at
+    while p is not None and p is not loop:
+        if isinstance(p, ast.If) and child in p.body and isinstance(p.test, ast.Compare) and len(p.test.ops) == 1 and norm(p.test.left) == w:
+            op, rhs = p.test.ops[0], p.test.comparators[0]
+            if (isinstance(op, ast.NotEq) and _neg_const(rhs)) or (isinstance(op, ast.GtE) and norm(rhs) == "0") or (isinstance(op, ast.Gt) and _neg_const(rhs)):
+                return True
+        child, p = p, getattr(p, "_parent", None)
     return False
 
 
@@ -136,6 +210,10 @@ def _starts_above(w: str, v: str, loop, depth: int) -> bool:
                         ok_init = True
                         continue
                     return False
+                if isinstance(val, ast.IfExp) and isinstance(val.body, ast.Name) and val.body.id == w and _neg_const(val.orelse):
+                    # `w = w if found else -1`: w keeps its value or becomes the "not found" mark; the mark is excluded where w is used
+                    # (checked by _sentinel_excluded at the move)
+                    continue
                 if isinstance(val, ast.Name) and _starts_above(val.id, v, loop, depth + 1):
                     ok_init = True
                     continue
